@@ -10,6 +10,7 @@ import (
 
 	ztls "github.com/zmap/zcrypto/tls"
 
+	"verifharness/internal/core"
 	"verifharness/internal/netx"
 )
 
@@ -62,6 +63,10 @@ type Options struct {
 	AB, BA           netx.Options  // transport options: A = client side, B = server side
 	HandshakeTimeout time.Duration // watchdog only (default 30 s); firing sets TimedOut
 	SkipServer       bool
+	// RecoverPanics (opt-in): a panic inside Handshake / PingPong on either endpoint goroutine is recovered and
+	// reported in Result.CPanic / SPanic (the error of that side is set to a "panic: ..." error) instead of
+	// killing the process. Default false: panics propagate as before.
+	RecoverPanics bool
 }
 
 // Result of a pair run. Exactly one of CZ/CG and one of SZ/SG is non-nil.
@@ -74,6 +79,8 @@ type Result struct {
 	TimedOut       bool
 	ClientKeyLog   *SyncBuffer
 	ServerKeyLog   *SyncBuffer
+	CPanic, SPanic *core.PanicInfo // set only with Options.RecoverPanics
+	recoverPanics  bool
 	clientEndpoint Endpoint
 	serverEndpoint Endpoint
 }
@@ -95,8 +102,19 @@ func handshakeBoth(r *Result, opt Options) {
 	}
 	var wg sync.WaitGroup
 	wg.Add(2)
-	go func() { defer wg.Done(); r.CErr = r.clientEndpoint.Handshake(); if r.CErr != nil { r.A.Close() } }()
-	go func() { defer wg.Done(); r.SErr = r.serverEndpoint.Handshake(); if r.SErr != nil { r.B.Close() } }()
+	r.recoverPanics = opt.RecoverPanics
+	hs := func(ep Endpoint) (err error, pi *core.PanicInfo) {
+		if !opt.RecoverPanics {
+			return ep.Handshake(), nil
+		}
+		pi = core.Guard(func() { err = ep.Handshake() })
+		if pi != nil {
+			err = fmt.Errorf("panic: %s", pi.Value)
+		}
+		return
+	}
+	go func() { defer wg.Done(); r.CErr, r.CPanic = hs(r.clientEndpoint); if r.CErr != nil { r.A.Close() } }()
+	go func() { defer wg.Done(); r.SErr, r.SPanic = hs(r.serverEndpoint); if r.SErr != nil { r.B.Close() } }()
 	done := make(chan struct{})
 	go func() { wg.Wait(); close(done) }()
 	select {
@@ -150,7 +168,21 @@ func RunGZ(cc *gotls.Config, sc *ztls.Config, opt Options) *Result {
 // It makes a TLS 1.3 client process post-handshake messages (NewSessionTicket) as a side effect.
 func (r *Result) PingPong(msg, reply []byte) error {
 	errc := make(chan error, 2)
-	go func() {
+	guard := func(isServer bool, f func()) {
+		if !r.recoverPanics {
+			f()
+			return
+		}
+		if pi := core.Guard(f); pi != nil {
+			if isServer {
+				r.SPanic = pi
+			} else {
+				r.CPanic = pi
+			}
+			errc <- fmt.Errorf("panic: %s", pi.Value)
+		}
+	}
+	go guard(true, func() {
 		buf := make([]byte, len(msg))
 		if _, err := io.ReadFull(r.serverEndpoint, buf); err != nil {
 			errc <- fmt.Errorf("server read: %w", err)
@@ -162,8 +194,8 @@ func (r *Result) PingPong(msg, reply []byte) error {
 		}
 		_, err := r.serverEndpoint.Write(reply)
 		errc <- err
-	}()
-	go func() {
+	})
+	go guard(false, func() {
 		if _, err := r.clientEndpoint.Write(msg); err != nil {
 			errc <- fmt.Errorf("client write: %w", err)
 			return
@@ -178,7 +210,7 @@ func (r *Result) PingPong(msg, reply []byte) error {
 			return
 		}
 		errc <- nil
-	}()
+	})
 	var first error
 	for i := 0; i < 2; i++ {
 		select {
